@@ -49,6 +49,7 @@ RULE = (
     "s bulkget / multiwalk2 whose argument lists are shared by all operations of an execution"
     "; the small deterministic blocks (slow get during a long walk, ticking sets, cancellatio"
     "ns) run before the enumeration, which may use at most 60% of the time cap."
+    " Mode v3-fresh-two-step: first use of a client against an agent with two-step discovery."
 )
 ASSUMPTIONS = [
     "operations in one set commute (sets go to private OIDs nobody else reads)",
